@@ -12,6 +12,7 @@ import (
 	"sort"
 	"strconv"
 	"strings"
+	"sync"
 	"time"
 
 	kv "github.com/XiXi-2024/xixi-kv"
@@ -65,6 +66,40 @@ func lockChild(en *Env) {
 				slots[slot] = db
 			}
 			fmt.Fprintf(out, "res %s\n", strings.ReplaceAll(name, " ", "_"))
+		case "ropen":
+			// ropen <dir> <unixnano> <slot>...: the given goroutine slots open the directory at the same instant
+			at, _ := strconv.ParseInt(f[2], 10, 64)
+			var slotsToOpen []int
+			for _, x := range f[3:] {
+				sl, _ := strconv.Atoi(x)
+				slotsToOpen = append(slotsToOpen, sl)
+			}
+			results := make([]string, len(slotsToOpen))
+			dbs := make([]*kv.DB, len(slotsToOpen))
+			var wg sync.WaitGroup
+			for i := range slotsToOpen {
+				wg.Add(1)
+				go func(i int) {
+					defer wg.Done()
+					time.Sleep(time.Until(time.Unix(0, at)))
+					o := kv.DefaultOptions
+					o.DirPath = f[1]
+					o.DataFileSize = 1 << 20
+					results[i] = h.Guard(h.CallTimeout, func() error {
+						var err error
+						dbs[i], err = kv.Open(o)
+						return err
+					})
+				}(i)
+			}
+			wg.Wait()
+			for i, sl := range slotsToOpen {
+				if results[i] == "ok" {
+					slots[sl] = dbs[i]
+				}
+				results[i] = strings.ReplaceAll(results[i], " ", "_")
+			}
+			fmt.Fprintf(out, "res %s\n", strings.Join(results, " "))
 		case "close":
 			slot, _ := strconv.Atoi(f[1])
 			name := "notopen"
@@ -164,6 +199,55 @@ func profDirLock(en *Env) {
 		}
 		en.T.Emit(h.Ev{"ev": "reset", "corrupt": false, "fresh": fresh})
 		open := map[int]bool{} // opener id -> believed open (mechanics: which close commands make sense)
+		race := func() {
+			// racing Opens from a barrier (one closed goroutine slot of every process)
+			var os_ []int
+			type who struct{ p, g int }
+			var ws []who
+			for pi := range kids {
+				gi := r.Intn(2)
+				if !open[(pi+1)*10+gi] {
+					ws = append(ws, who{pi, gi})
+					os_ = append(os_, (pi+1)*10+gi)
+				}
+			}
+			if len(ws) < 2 {
+				return
+			}
+			at := time.Now().Add(30 * time.Millisecond).UnixNano()
+			for _, w := range ws {
+				kids[w.p].send("open %d %s %d", w.g, dir, at)
+			}
+			res := []string{}
+			for i, w := range ws {
+				rr := kids[w.p].recv()
+				res = append(res, rr)
+				if rr == "ok" {
+					open[os_[i]] = true
+				}
+			}
+			en.T.Emit(h.Ev{"ev": "race", "os": os_, "res": res})
+			attempts += len(ws)
+		}
+		if fresh {
+			// the very first attempts on a directory that does not exist yet race each other (no lock file
+			// exists before the race), and the losers try again right away
+			race()
+			for pi := range kids {
+				o := (pi+1)*10 + 1
+				if open[o] || open[(pi+1)*10] {
+					continue
+				}
+				before := fingerprint(dir)
+				kids[pi].send("open %d %s", 1, dir)
+				res := kids[pi].recv()
+				en.T.Emit(h.Ev{"ev": "lk", "o": o, "act": "open", "res": res, "same": before == fingerprint(dir)})
+				if res == "ok" {
+					open[o] = true
+				}
+				attempts++
+			}
+		}
 		for s := 0; s < steps; s++ {
 			p := r.Intn(len(kids))
 			g := r.Intn(2)
@@ -194,34 +278,7 @@ func profDirLock(en *Env) {
 				os.WriteFile(dataFile, b, 0644)
 				en.T.Emit(h.Ev{"ev": "setdir", "corrupt": corrupt})
 			case x < 95:
-				// racing Opens from a barrier (all closed openers of all processes, slot 0 and 1)
-				var os_ []int
-				type who struct{ p, g int }
-				var ws []who
-				for pi := range kids {
-					gi := r.Intn(2)
-					if !open[(pi+1)*10+gi] {
-						ws = append(ws, who{pi, gi})
-						os_ = append(os_, (pi+1)*10+gi)
-					}
-				}
-				if len(ws) < 2 {
-					continue
-				}
-				at := time.Now().Add(30 * time.Millisecond).UnixNano()
-				for _, w := range ws {
-					kids[w.p].send("open %d %s %d", w.g, dir, at)
-				}
-				res := []string{}
-				for i, w := range ws {
-					rr := kids[w.p].recv()
-					res = append(res, rr)
-					if rr == "ok" {
-						open[os_[i]] = true
-					}
-				}
-				en.T.Emit(h.Ev{"ev": "race", "os": os_, "res": res})
-				attempts += len(ws)
+				race()
 			}
 		}
 		for o := range open {
@@ -231,6 +288,52 @@ func profDirLock(en *Env) {
 		}
 		en.Drop(dir)
 	}
+	// fresh-directory races: the directory does not exist yet; both goroutine slots of every process open it at
+	// the same instant; then every loser tries once more (must be rejected while the winner is open)
+	fraces := 40 * en.Scale
+	if en.Thorough() {
+		fraces = 600 * en.Scale
+	}
+	for i := 0; i < fraces; i++ {
+		dir := en.FreshDir()
+		en.T.Emit(h.Ev{"ev": "reset", "corrupt": false, "fresh": true})
+		at := time.Now().Add(8 * time.Millisecond).UnixNano()
+		var os_ []int
+		for pi := range kids {
+			kids[pi].send("ropen %s %d 0 1", dir, at)
+			os_ = append(os_, (pi+1)*10, (pi+1)*10+1)
+		}
+		var res []string
+		for pi := range kids {
+			res = append(res, strings.Fields(kids[pi].recv())...)
+		}
+		for len(res) < len(os_) {
+			res = append(res, "died")
+		}
+		en.T.Emit(h.Ev{"ev": "race", "os": os_, "res": res})
+		attempts += len(os_)
+		for j, o := range os_ {
+			if res[j] == "ok" {
+				continue
+			}
+			before := fingerprint(dir)
+			kids[o/10-1].send("open %d %s", o%10, dir)
+			r2 := kids[o/10-1].recv()
+			en.T.Emit(h.Ev{"ev": "lk", "o": o, "act": "open", "res": r2, "same": before == fingerprint(dir)})
+			attempts++
+			if r2 == "ok" {
+				res[j] = "ok" // (so that it gets closed below)
+			}
+		}
+		for j, o := range os_ {
+			if res[j] == "ok" {
+				kids[o/10-1].send("close %d", o%10)
+				kids[o/10-1].recv()
+			}
+		}
+		en.Drop(dir)
+	}
+	en.Summary["fresh_races"] = fraces
 	en.Summary["attempts"] = attempts
 	en.Summary["processes"] = len(kids)
 }
